@@ -312,4 +312,14 @@ func registerExtraNatives(e *Engine, r func(string, interface{})) {
 	r("github.com/go-openapi/swag.Camelize", swag.Camelize)
 	r("github.com/go-openapi/swag.ContainsStrings", swag.ContainsStrings)
 	r("github.com/go-openapi/swag.ContainsStringsCI", swag.ContainsStringsCI)
+	r("github.com/go-openapi/swag.ConvertBool", swag.ConvertBool)
+	r("github.com/go-openapi/swag.ConvertInt64", swag.ConvertInt64)
+	r("github.com/go-openapi/swag.ConvertFloat64", swag.ConvertFloat64)
+	r("strconv.Unquote", strconv.Unquote)
+	r("strconv.Atoi", strconv.Atoi)
+	r("strconv.ParseInt", strconv.ParseInt)
+	r("strconv.ParseUint", strconv.ParseUint)
+	r("strconv.ParseFloat", strconv.ParseFloat)
+	r("strconv.ParseBool", strconv.ParseBool)
+	r("(reflect.StructTag).Get", func(t string, key string) string { return reflect.StructTag(t).Get(key) })
 }
